@@ -431,11 +431,11 @@ def _statistics(chk, ctx) -> None:
         fin = [n for n in m.ifs(fi.node, 'hh.finishing_stacks is None') + m.ifs(fi.node, 'hh.finishing_stacks is not None')]
         facts['finishing stacks: the recorded ones, else those of the replayed final state'] = any(
             (lambda a, b: bool(m.exprs(ast.Module(body=a, type_ignores=[]), 'tuple(hh)[-1]')) and bool(m.assigns(ast.Module(body=b, type_ignores=[]), 'hh.finishing_stacks')))(
-                *((n.body, n.orelse) if T.cond(n.test) == T.spec('hh.finishing_stacks is None', boolean=True) else (n.orelse, n.body))) for n in fin)
+                *((n.body, n.orelse) if m.eq(T.cond(n.test), 'hh.finishing_stacks is None', boolean=True, fn=fi.node) else (n.orelse, n.body))) for n in fin)
         pl = [n for n in m.ifs(fi.node, 'hh.players is None') + m.ifs(fi.node, 'hh.players is not None')]
         facts['players: the recorded names, else nobody'] = any(
             (lambda a, b: bool(m.assigns(ast.Module(body=a, type_ignores=[]), 'repeat(None)')) and bool(m.assigns(ast.Module(body=b, type_ignores=[]), 'hh.players')))(
-                *((n.body, n.orelse) if T.cond(n.test) == T.spec('hh.players is None', boolean=True) else (n.orelse, n.body))) for n in pl)
+                *((n.body, n.orelse) if m.eq(T.cond(n.test), 'hh.players is None', boolean=True, fn=fi.node) else (n.orelse, n.body))) for n in pl)
         facts['only named players are recorded'] = any(
             any(isinstance(c, ast.Call) and isinstance(c.func, ast.Attribute) and c.func.attr == 'append' for c in ast.walk(ast.Module(body=n.body, type_ignores=[])))
             for n in m.ifs(fi.node, 'player is not None'))
